@@ -283,3 +283,43 @@ CLAIMS['C18'] = {
 }
 
 NOT_APPLICABLE = {}
+
+
+# rules added in the sixth round (each is counted in the evidence of the property)
+_SIXTH_ROUND = {
+    'C02': 'A date is the queue key exactly as given (no arithmetic on it), so wake-ups for '
+           'one date share one bucket in request order (rule shared with C01).',
+    'C03': 'Every way through an __unsubscribe__ removes the pair from a waiter list or '
+           'revokes the signal; the loop in which a scope waits for its children passes a '
+           'must-suspend in every round (no spinning on a child that is done but not yet '
+           'deregistered).',
+    'C04': 'No method of a scope other than __aexit__ closes a child task on any path '
+           '(volatile children live until the closing sequence); every round of '
+           '_await_children passes a must-suspend.',
+    'C06': 'The subscribe/unsubscribe protocol of every notification class (a cancelled task '
+           'lets go of everything it was subscribed to; rules shared with C03) and the '
+           'no-spin rule of _await_children (a child cancelled before its first turn gets '
+           'that turn).',
+    'C07': 'A tracked comparison triggers its subscribers exactly when it holds after a '
+           'change (an until block takes the signal without a second look; rule shared with '
+           'C08).',
+    'C08': '`time >= d`, `time == d`, `time < d` build the condition object for the date on '
+           'every path, whatever the clock reads when the expression is written (rule shared '
+           'with C01).',
+    'C10': 'A receiver starts to wait for the notification only after it saw, in the same '
+           'atomic block (inside the read mutex), that the queue is not closed.',
+    'C14': 'The clock holds the start time and then the queued dates exactly as given (clock '
+           'writers and queue keys, rules shared with C01): no conversion puts later ticks on '
+           'another number grid.',
+    'C15': 'The closing sequence on every exit of Scope.__aexit__ (a root closed by run(till) '
+           'while it waits at the end of a scope of its own takes its children with it; rule '
+           'shared with C04). A module level container touched only by decorators applied at '
+           'import time is not simulation state.',
+    'C16': 'Queue.put enqueues and wakes the reader before its first suspension (a result is '
+           'available in the turn its activity ended); suspend/postpone withdraw their '
+           'wake-up on every exit, a forced close included (rule shared with C03).',
+    'C17': 'The path table of __getitem__: Cls[...] and only that is Cls itself; a single '
+           'type is specialised as its 1-tuple and a tuple as it is, whatever it lists.',
+}
+for _pid, _extra in _SIXTH_ROUND.items():
+    CLAIMS[_pid]['text'] = CLAIMS[_pid]['text'] + ' Also: ' + _extra
